@@ -137,3 +137,9 @@ def native_replay(rep):
     if bad is None:
         return {"confirmed": False, "observed": f"no violation among {n} generated raw texts"}
     return {"confirmed": True, "observed": bad, "found_by": f"bounded generation ({n} cases)"}
+
+# registration of a preprocessor is configuration only: it is stored for exactly the given schema and nothing the folds count with is touched
+contract(T + ".register_co_chaperone", "C11", params={"schema": "any", "preprocessor": "callback"}, raises=[], modifies=["self.co_chaperones"],
+         ensures={"stored-for-the-given-schema": "schema in self.co_chaperones and self.co_chaperones[schema] is preprocessor",
+                  "strategies-and-counters-untouched": "len(self.strategies) == len(old(self).strategies) and self.max_retries == old(self).max_retries "
+                                                       "and self._total_folds == old(self)._total_folds and self._successful_folds == old(self)._successful_folds"})
